@@ -286,6 +286,10 @@ def ob_event_flow(run, oid):
         o.check(bool(p) and b.always_followed_by(0, [x.bb for x in p]), "PoolImpl::handle_finalization|prune", "always prunes", b.span)
         sp = b.calls_to(PI + "::send_parent_ready_events")
         o.check(bool(sp) and b.always_followed_by(0, [x.bb for x in sp]), "PoolImpl::handle_finalization|announce", "always announces the resulting ParentReady events", b.span)
+        # order: the tracker has to see the event while its root is still the old one - pruning first moves the root past the very
+        # slots the event reports (implicitly finalized ancestors, implicitly skipped slots), and the tracker's root guard drops them
+        early = [x for x in p if any(b.can_reach(x.bb, y.bb) for y in h)]
+        o.check(bool(h) and bool(p) and not early, "PoolImpl::handle_finalization|tracker-before-prune", "the parent-ready tracker handles the event before anything is pruned", (early[0].span if early else b.span))
 
 
 def ob_cert_wiring(run, oid):
@@ -372,6 +376,10 @@ def ob_prune_coverage(run, oid):
 
 
 def check(run):
+    from . import detectors as _DS
+    _DS.ob_structural_impls(run, "O8.15", ['consensus::pool::finality_tracker', 'types::', 'crypto::hash', 'crypto::merkle'], 'status and block-id comparisons decide what is (re)reported and what a watermark may pass')
+    from . import detectors as _DL
+    _DL.ob_loop_exits(run, "O8.14", ['consensus::pool'], 'implicit finalization walks whole chains and ranges of slots: a loop that stops early leaves slots undecided and unreported')
     ob_direct_reporting(run, "O8.13")
     ob_implicit_sources(run, "O8.12")
     ob_status_reporting(run, "O8.11")
